@@ -181,6 +181,8 @@ class FatFileSystem:
                 self._lock,
                 mem[data_offset:end_offset],
                 bpb.bytes_per_sector * bpb.sectors_per_cluster)
+            # Only FAT entries with a cluster in the data area are allocatable
+            self._fat.limit = len(self._data) + 2
             if self._fat_type == 'fat32':
                 if ebpb_fat32 is None:
                     raise ValueError(lang._(
@@ -681,6 +683,15 @@ class FatTable(abc.MutableSequence):
                 yield cluster
                 cluster = next_cluster
 
+    #: The number of FAT entries that correspond to clusters which actually
+    #: exist in the data area (clusters 2 to limit - 1); set by
+    #: :class:`FatFileSystem`. The FAT itself is usually larger because it is
+    #: padded to a whole number of sectors.
+    limit = None
+
+    def _scan_end(self):
+        return len(self) if self.limit is None else min(len(self), self.limit)
+
     def free(self):
         """
         Generator that scans the FAT for free clusters, yielding each as it is
@@ -688,8 +699,8 @@ class FatTable(abc.MutableSequence):
         with the code ENOSPC (out of space).
         """
         with self._lock.read:
-            for cluster, value in enumerate(self):
-                if value == 0 and self.min_valid < cluster:
+            for cluster in range(self._scan_end()):
+                if self[cluster] == 0 and self.min_valid < cluster:
                     yield cluster
                 if cluster >= self.max_valid:
                     break
@@ -874,10 +885,10 @@ class Fat32Table(FatTable):
         with self._lock.read:
             if self._info is not None:
                 last_alloc = self._info.last_alloc
-                if self.min_valid <= last_alloc < len(self):
+                if self.min_valid <= last_alloc < self._scan_end():
                     # If we have a valid info-sector, start scanning from the
                     # last allocated cluster plus one
-                    for cluster in range(last_alloc + 1, len(self)):
+                    for cluster in range(last_alloc + 1, self._scan_end()):
                         if self[cluster] == 0 and self.min_valid < cluster:
                             yield cluster
                         if cluster >= self.max_valid:
